@@ -10,6 +10,7 @@ package main
 
 import (
 	"bufio"
+	"context"
 	"crypto/sha1"
 	"encoding/json"
 	"flag"
@@ -173,6 +174,7 @@ func main() {
 	tier := fs.String("tier", "", "quick|thorough")
 	jobs := fs.Int("jobs", 16, "parallel workers")
 	keep := fs.Bool("keep", false, "keep the work directory")
+	stopFirst := fs.Bool("stop-on-violation", false, "stop the remaining units as soon as one unit reports a violation (seed sweeps; evidence is then partial)")
 	only := fs.String("only", "", "substring filter on unit names (debugging; evidence is marked partial)")
 	fs.Parse(os.Args[2:])
 	if *tier == "" {
@@ -249,6 +251,9 @@ func main() {
 	sem := make(chan struct{}, *jobs)
 	var mu sync.Mutex
 	var harnessErrs []string
+	knownEarly := loadKnown()
+	stopCtx, stopAll := context.WithCancel(context.Background())
+	defer stopAll()
 	todo := make([]int, len(units))
 	for i := range units {
 		todo[i] = i
@@ -261,9 +266,12 @@ func main() {
 				defer wg.Done()
 				sem <- struct{}{}
 				defer func() { <-sem }()
+				if stopCtx.Err() != nil {
+					return
+				}
 				outf := filepath.Join(work, fmt.Sprintf("res-%d.json", i))
 				args := []string{"-prop", prop, "-tier", *tier, "-unit", u.Name, "-out", outf, "-deadline", fmt.Sprint(perUnit), "-shard", fmt.Sprint(u.shard), "-nshards", fmt.Sprint(u.Shards)}
-				c := exec.Command(ha, args...)
+				c := exec.CommandContext(stopCtx, ha, args...)
 				c.Dir = work
 				c.Env = env(work, "VERIF_TASK_BIN="+taskBin, "VERIF_SEED="+fmt.Sprint(seed), "VERIF_WCACHE="+filepath.Join(verif, "wcache", prop+"-"+*tier))
 				if os.Getenv("VERIF_REPO") != "" {
@@ -280,6 +288,17 @@ func main() {
 				}
 				mu.Lock()
 				defer mu.Unlock()
+				if rerr != nil && stopCtx.Err() != nil {
+					return // stopped on purpose after another unit reported a violation
+				}
+				if rerr == nil && *stopFirst {
+					for _, v := range r.Violations {
+						if k, ok := knownEarly[v.Sig]; !ok || k.Status != "known" {
+							stopAll() // a violation that is not a listed known finding
+							break
+						}
+					}
+				}
 				if rerr != nil {
 					// the code under test recursed until the Go runtime killed the worker: a verdict
 					// about that code (unbounded recursion), not a harness failure
